@@ -1,0 +1,83 @@
+//! Verification hooks (only compiled with `--cfg isographlabs_isograph_verif`).
+//!
+//! Exposes the crate-private artifact planning / writing functions and the watch-mode event
+//! categorisation to external model-checking harnesses, and provides a fault-injection point
+//! inside `apply_file_system_operations`. Inert unless a harness arms a fault.
+
+use std::cell::Cell;
+use std::path::Path;
+
+use artifact_content::FileSystemState;
+use common_lang_types::{
+    ArtifactPathAndContent, FileSystemOperation, LocationFreeDiagnostic,
+    LocationFreeDiagnosticResult,
+};
+
+pub fn get_file_system_operations(
+    paths_and_contents: &[ArtifactPathAndContent],
+    artifact_directory: &Path,
+    file_system_state: &mut Option<FileSystemState>,
+) -> Vec<FileSystemOperation> {
+    crate::write_artifacts::get_file_system_operations(
+        paths_and_contents,
+        artifact_directory,
+        file_system_state,
+    )
+}
+
+pub fn apply_file_system_operations(
+    operations: &[FileSystemOperation],
+    artifacts: &[ArtifactPathAndContent],
+) -> LocationFreeDiagnosticResult<usize> {
+    crate::write_artifacts::apply_file_system_operations(operations, artifacts)
+}
+
+#[derive(Debug, Clone, Copy, PartialEq, Eq)]
+pub enum FaultKind {
+    /// the operation fails before it has any effect
+    ErrorBefore,
+    /// a file write leaves a truncated file behind and then fails
+    TornWrite,
+}
+
+thread_local! {
+    static ARMED: Cell<Option<(usize, FaultKind)>> = const { Cell::new(None) };
+    static SEEN: Cell<usize> = const { Cell::new(0) };
+    static FIRED: Cell<bool> = const { Cell::new(false) };
+}
+
+/// Make the `at`-th file system operation (0-based, counted from now) fail.
+pub fn arm_fault(at: usize, kind: FaultKind) {
+    ARMED.with(|a| a.set(Some((at, kind))));
+    SEEN.with(|s| s.set(0));
+    FIRED.with(|f| f.set(false));
+}
+
+/// Disarm; returns whether the armed fault fired.
+pub fn disarm_fault() -> bool {
+    ARMED.with(|a| a.set(None));
+    FIRED.with(|f| f.replace(false))
+}
+
+pub(crate) fn fault_point(
+    operation: &FileSystemOperation,
+    artifacts: &[ArtifactPathAndContent],
+) -> LocationFreeDiagnosticResult<()> {
+    let Some((at, kind)) = ARMED.with(|a| a.get()) else {
+        return Ok(());
+    };
+    let seen = SEEN.with(|s| s.replace(s.get() + 1));
+    if seen != at {
+        return Ok(());
+    }
+    FIRED.with(|f| f.set(true));
+    ARMED.with(|a| a.set(None));
+    if let (FaultKind::TornWrite, FileSystemOperation::WriteFile(path, content)) = (kind, operation)
+    {
+        let content = &artifacts[content.idx].file_content;
+        let _ = std::fs::write(path, &content.as_bytes()[..content.len() / 2]);
+    }
+    Err(LocationFreeDiagnostic::from(format!(
+        "verif: injected I/O fault at file system operation #{at}"
+    )))
+}
